@@ -369,6 +369,7 @@ struct ProgResult {
     prefix_only: u64,
     lenient: (u64, u64),
     strategies: HashMap<String, u64>,
+    digest: String,
 }
 
 fn probe_trace(ev: &[Event], probes: &mut HashMap<&'static str, u64>) {
@@ -490,6 +491,7 @@ fn check_program(sb: &Sandbox, opts: &Opts, idx: usize, name: &str, text_or_file
         prefix_only: 0,
         lenient: (0, 0),
         strategies: HashMap::new(),
+        digest: String::new(),
     };
     let t0 = std::time::Instant::now();
     let _timer = Timer(t0, name.to_string());
@@ -510,6 +512,7 @@ fn check_program(sb: &Sandbox, opts: &Opts, idx: usize, name: &str, text_or_file
         let seed = mix(&[opts.seed, idx as u64, k as u64, purpose("c09-schedule")]);
         let ch = check_schedule(&c.gp, &c.rp, strategy, seed, vec![], gort::DEFAULT_STEPS);
         r.schedules += 1;
+        r.digest = sha(format!("{}{:?}{:?}{:?}", r.digest, ch.go_events.iter().map(|e| (e.gid, &e.ev)).collect::<Vec<_>>(), ch.schedule, ch.verdict).as_bytes());
         *r.strategies.entry(format!("{strategy:?}")).or_insert(0) += 1;
         r.sim_ns += ch.sim_time_ns;
         r.lenient.0 += ch.lenient.0;
@@ -654,6 +657,7 @@ pub fn run(opts: &Opts) -> i32 {
         |w| Sandbox::new(&format!("c09w{w}")).expect("sandbox"),
         |sb, i| check_program(sb, opts, i, &progs[i].0, &progs[i].1, nsched),
     );
+    harness::print_run_digest(&results.iter().map(|r| r.digest.clone()).collect::<Vec<_>>());
     let mut violations = Vec::new();
     let (mut skipped, mut not_compiled, mut prefix, mut sim_ns) = (0u64, 0u64, 0u64, 0u64);
     let mut skip_reasons: HashMap<String, u64> = HashMap::new();
